@@ -65,12 +65,13 @@ def _template(ctx, kind, side, exch):
         pe = ctx.real('pe', 50, 200)
         sl = ctx.real('sl', 50, 200)
         tp = ctx.real('tp', 50, 200)
+        ctx.constrain(Not(sl == tp))  # jesse rejects identical stop-loss and take-profit declarations (InvalidStrategy)
         return S.make_template(side=side, entry=pe, stop=sl, take=tp, qty=1.0, on_open_exits=on_open, name='T8')
     raise ValueError(kind)
 
 
-def h_session(ctx, n=3, kind='T1', side='long', exch='futures', fast=False, tf='1m', sym_from=1, c08_only=False):
-    rows = S.minute_rows(ctx, n, sym_from=sym_from)
+def h_session(ctx, n=3, kind='T1', side='long', exch='futures', fast=False, tf='1m', sym_from=1, c08_only=False, sym=None):
+    rows = S.sparse_rows(ctx, n, sym) if sym is not None else S.minute_rows(ctx, n, sym_from=sym_from)
     T = _template(ctx, kind, side, exch)
     cfg = S.config_dict(exchange_type=exch, leverage=2, fee=0.001, balance=10000.0)
     rec = S.run_session(S.make_candles(rows), T, cfg, timeframe=tf, fast=fast)
@@ -153,6 +154,9 @@ def chunk_obligations(ctx, rec, m, tag=''):
             last_minute_open = cs[-1][0]
             # created while store.app.time pointed into an earlier minute of the chunk and not filled by the matching loop
             filled_in_loop = any(k == 'fill' and o is od for k, o in m['events'])
+            if not od.is_executed:
+                continue  # cancelled (e.g. the position was closed by another order first)
+            ctx.event('market-order-from-hook-inside-chunk' + tag)
             ctx.prove(filled_in_loop or info['created_time'] > last_minute_open,
                       'C02e:market-order-inside-chunk-waits-for-later-candles')
     return nfill
@@ -165,13 +169,14 @@ def _jobs(tier):
     jobs = []
 
     def add(**kw):
-        nm = 'sess_' + '_'.join('%s' % v for v in kw.values())
+        nm = 'sess_' + '_'.join(('%s' % (v,)).replace(' ', '') for v in kw.values())
         jobs.append(Job(nm, h_session, kw, {'max_decisions': 4000}))
     if tier == 'quick':
         add(n=3, kind='T1', side='long', exch='futures')
         add(n=3, kind='T1', side='short', exch='futures')
         add(n=3, kind='T2', side='long', exch='futures', sym_from=2)
         add(n=3, kind='T1', side='long', exch='spot')
+        add(n=6, kind='T8', side='long', exch='futures', fast=True, tf='3m', sym=[1, 4])
     else:
         for side in ('long', 'short'):
             for kind in ('T1', 'T1m', 'T2', 'T3', 'T4', 'T8'):
@@ -181,8 +186,12 @@ def _jobs(tier):
         add(n=4, kind='T1', side='long', exch='futures')
         add(n=4, kind='T1m', side='short', exch='futures')
         # fast mode, 3m route: two chunks; the first minute concrete, one symbolic minute per chunk region
-        add(n=6, kind='T1', side='long', exch='futures', fast=True, tf='3m', sym_from=4)
-        add(n=6, kind='T1', side='short', exch='futures', fast=True, tf='3m', sym_from=4)
+        # fast mode, 3m route, two chunks: one or two symbolic minutes per chunk, the others flat at the previous close
+        add(n=6, kind='T1', side='long', exch='futures', fast=True, tf='3m', sym=[1, 4])
+        add(n=6, kind='T1', side='short', exch='futures', fast=True, tf='3m', sym=[2, 3])
+        add(n=6, kind='T8', side='long', exch='futures', fast=True, tf='3m', sym=[1, 4])
+        add(n=6, kind='T1', side='long', exch='futures', fast=True, tf='3m', sym=[3, 4])
+        add(n=6, kind='T3', side='short', exch='futures', fast=True, tf='3m', sym=[4])
     return jobs
 
 
